@@ -1,6 +1,6 @@
 #!/bin/sh
 # runall.sh <seed> [tier]: every check once, summary lines only
-SEED=${1:-1}; TIER=${2:-quick}
+SEED=${1:-1}; TIER=${2:-quick}; mkdir -p out
 for p in C01 C02 C03 C04 C05 C06 C07 C08 C09 C10 C11 C12 C13 C14 C15 C16 C17 C18 C19 C20; do
   VERIF_SEED=$SEED /venv/bin/python -B harness/check.py $p --tier $TIER > out/runall_$p.log 2>&1
   rc=$?
